@@ -114,6 +114,12 @@ func (x *Exec) specCall(c *SpecCtx, e *Expr) (*Val, error) {
 			}
 			return v, nil
 		}
+		// a captured variable of a closure: its content in the state being described
+		for _, fv := range x.freeVarRefs {
+			if fv.name == e.Args[0].Name {
+				return x.loadObj(c.st, fv.ref, fv.typ, "", fv.typ), nil
+			}
+		}
 		// a local whose address escapes lives on the heap: the name denotes (a pointer to) it
 		for _, b := range x.fn.Blocks {
 			for _, in := range b.Instrs {
